@@ -30,7 +30,8 @@ RULE = ("case = pool of 20-40 values (types, boxes, diagrams, sums, bubbles) of 
         "near-twins differ in one attribute (offset, winding number, name 1 vs "
         "'1', data [1] vs (1,), dagger flag); all ordered pairs are compared.  "
         "Non-trivial = pool has >= 3 structural classes with >= 2 members; "
-        "distinct by the sorted keys of the pool.")
+        "distinct by the sorted keys of the pool."
+        "  Also: sums accumulated with += (hash/repr taken before), bubbles with both types overridden.")
 SIZES = {"quick": (16, 60), "thorough": (16, 1500)}
 TIMEOUT = {"quick": 600, "thorough": 5400}
 COVER = {
